@@ -18,6 +18,8 @@ int run_ddl(const vf::Args&);
 int run_value(const vf::Args&);
 int run_leak(const vf::Args&);
 int run_cycle(const vf::Args&);
+int run_nodeinfo_conc(const vf::Args&);
+int run_collapse_micro(const vf::Args&);
 
 int main(int argc, char** argv) {
     google::InitGoogleLogging(argv[0]);
@@ -72,6 +74,8 @@ int main(int argc, char** argv) {
     if (mode == "value") { return run_value(args); }
     if (mode == "leak") { return run_leak(args); }
     if (mode == "cycle") { return run_cycle(args); }
+    if (mode == "nodeinfo_conc") { return run_nodeinfo_conc(args); }
+    if (mode == "collapse_micro") { return run_collapse_micro(args); }
     fprintf(stderr, "unknown --mode %s\n", mode.c_str());
     return 2;
 }
